@@ -9,31 +9,40 @@
 (*  Observation side, ObsInit: two targets, two sensors, one engine or two engines with EVERY assignment of the   *)
 (*  sensors to the engines and EVERY family of target lists that covers the targets (disjoint networks, shared    *)
 (*  targets, an engine whose sensor observed a target only the other engine tracks: cross-engine observations),   *)
-(*  every set of observation rows over both epochs, with and without an imported agent.                           *)
+(*  every set of observation rows over both epochs with any of two of them stored twice, with and without          *)
+(*  an imported agent.  Schema of the importer file: full data model / only the tables the importer reads.        *)
 EXTENDS Importer
 AllAgents == {"t1", "s1"}
-EphInit(N, Unrelated) ==
+EphInit(N, Unrelated, Schemas) ==
   \E ep \in SUBSET (1..N) :
    \E imp \in {{"t1"}, {"s1"}, {"t1", "s1"}}, rows \in SUBSET ((AllAgents \cup Unrelated) \X ep),
       obs \in {{}, {<<j, "t1", "s1">> : j \in ep}},
-      born \in {[a \in AllAgents |-> 0], [a \in AllAgents |-> IF a = "t1" THEN 2 ELSE 0]} :
+      born \in {[a \in AllAgents |-> 0], [a \in AllAgents |-> IF a = "t1" THEN 2 ELSE 0]},
+      schema \in Schemas :
      InitWith([agents |-> AllAgents, imported |-> imp, targets |-> {"t1"}, epochs |-> ep, rows |-> rows, obs |-> obs,
-               nsteps |-> N, born |-> born,
+               dup |-> {}, schema |-> schema, nsteps |-> N, born |-> born,
                engines |-> {1}, sensorOf |-> [s \in {"s1"} |-> 1], tracks |-> [e \in {1} |-> {"t1"}]])
 
 TB == {"t1", "t2"}
 SB == {"s1", "s2"}
 ObsB == ({1} \X TB \X SB) \cup {<<2, "t1", "s2">>, <<2, "t2", "s1">>}
-ObsInit ==
+DupB == {<<1, "t1", "s2">>, <<2, "t2", "s1">>}
+ObsInitD(Dups) ==
   \E eng \in {{1}, {1, 2}} :
    \E imp \in {{}, {"t1"}}, obs \in SUBSET ObsB, so \in [SB -> eng],
       tr \in {f \in [eng -> SUBSET TB] : UNION {f[e] : e \in eng} = TB} :
+    \E dup \in SUBSET (obs \cap Dups) :
      InitWith([agents |-> TB \cup SB, imported |-> imp, targets |-> TB, epochs |-> 1..2, rows |-> imp \X (1..2), obs |-> obs,
+               dup |-> dup, schema |-> IF imp = {} THEN "minimal" ELSE "full",
                nsteps |-> 2, born |-> [a \in TB \cup SB |-> 0], engines |-> eng, sensorOf |-> so, tracks |-> tr])
 
-MCInitQuick == EphInit(2, {"x1", "x2"}) \/ EphInit(3, {"x1"}) \/ ObsInit
-MCInitThorough == EphInit(2, {"x1", "x2"}) \/ EphInit(4, {"x1"}) \/ EphInit(3, {"x1", "x2"}) \/ ObsInit
+ObsInit == ObsInitD(DupB)
+ObsInitNoDup == ObsInitD({})
+Both == {"full", "minimal"}
+MCInitQuick == EphInit(2, {"x1", "x2"}, Both) \/ EphInit(3, {"x1"}, {"full"}) \/ ObsInit
+MCInitThorough == EphInit(2, {"x1", "x2"}, Both) \/ EphInit(4, {"x1"}, Both) \/ EphInit(3, {"x1", "x2"}, Both) \/ ObsInit
 \* the part of the space in which each named deviation must be refuted
-MCInitCounts == EphInit(2, {"x1", "x2"})
-MCInitEpochs == EphInit(3, {"x1"})
+MCInitCounts == EphInit(2, {"x1", "x2"}, {"full"})
+MCInitCounts2 == EphInit(2, {"x1", "x2"}, Both)
+MCInitEpochs == EphInit(3, {"x1"}, {"full"})
 =============================================================================
